@@ -436,10 +436,12 @@ class NetworkClient(KGLambda):
             raise KlongException("connection not established")
 
         msg_id = uuid.uuid4()
-        future = self.ioloop.create_future()
-        self.pending_responses[msg_id] = future
 
         async def send_message_and_get_result():
+            # register on the io loop thread: the listener and the cleanup
+            # iterate over pending_responses there
+            future = self.ioloop.create_future()
+            self.pending_responses[msg_id] = future
             await stream_send_msg(self.writer, msg_id, msg)
             return await future
 
